@@ -34,7 +34,16 @@ MEMBERS = [b"a", b"b", b"c", b"d", b"", b"\x00\xffm", b"ab", b"a/b"]
 PATTERNS = [b"*", b"a*", b"?", b"[a-c]", b"*b", b"x", b"", b"a/*", b"[^a]*", b"\\*"]
 INT_EDGES = [0, 1, -1, 2, -2, 3, 5, -5, 7, 100, -100, 2**31, 2**63 - 1, -2**63]
 SCORES_ARITH = [0, 1, -1, 2, 3, -2, 5, 10, 100]
-SCORES_ANY = [0.0, -0.0, 1.0, -1.0, 1.5, 2.5, 3.0, 2.0, 1e100, -1e100, 5e-324]
+SCORES_ANY = [0.0, -0.0, 1.0, -1.0, 1.5, 2.5, 3.0, 2.0, 1e100, -1e100, 5e-324, 0.1, 0.2, 0.30000000000000004, 1e-3, 123456.789, 1e21]
+# float text (work package C): increments / stored texts with fractions, exponents, 17-digit values, sums that need
+# rounding, subnormals, overflow to Inf; the model's decimal ParseFloat / FormatFloat (Model/FloatDec.lean) handles them.
+# No NaN here: the embedded API returns the sum as a bit pattern and NaN payloads are not modelled.
+FLOAT_INCRS = [1, -1, 2, 10, 0, 1, -1, 0.1, 0.2, 0.5, -0.25, 1e-3, 3.0e3, 1e16, 0.30000000000000004, 1e300, -1e300, 5e-324,
+               1.7976931348623157e308, -1.7976931348623157e308, 123456.789, 1e21, 1e22, 1e-7, 9007199254740993.0, 2.2250738585072014e-308, -0.0]
+FLOAT_TEXTS = [b'0', b'5', b'-3', b'+5', b'007', b'12a', b'', b'99', b'0.1', b'1e3', b'3.0e3', b'-.5', b'5.', b'1e400', b'-1e400', b'1e-400',
+               b'0.1e1', b'1_000', b'1__0', b'inf', b'-Infinity', b'+INF', b'1.7976931348623157e308', b'9007199254740993', b'0.30000000000000004',
+               b'1e', b'.', b'4.9e-324', b'2.4703282292062327e-324', b'1E5', b'-0', b'-0.0', b'00.50', b'1e+2', b'12345678901234567890.5',
+               b'0.1 ', b' 1', b'1e1.5', b'infinit', b'+nan']
 SCORES_INF = SCORES_ANY + [float("inf"), float("-inf")]   # only on key zi, which never takes part in arithmetic (inf-inf, 0*inf = NaN)
 
 
@@ -116,8 +125,9 @@ class G:
             lambda: f"Decr {k}",
             lambda: f"IncrBy {k} {c([1, -1, 5, 100, 2**62, -2**62, 2**63 - 1, -2**63])}",
             lambda: f"DecrBy {k} {c([1, -1, 5, 100, 2**62, -2**63, 2**63 - 1])}",
-            lambda: f"IncrByFloat {'6631' if r.random() < 0.95 else c(['6c31', '6e6f6b6579', '7a31'])} {fbits(c([1, -1, 2, 10, 0]))}",
-            lambda: f"Set 6631 {hx(c([b'0', b'5', b'-3', b'+5', b'007', b'12a', b'', b'99']))} 0",
+            lambda: f"IncrByFloat {'6631' if r.random() < 0.95 else c(['6c31', '6e6f6b6579', '7a31'])} {fbits(c(FLOAT_INCRS))}",
+            lambda: f"IncrByFloat 6631 {fbits(c(FLOAT_INCRS))}",
+            lambda: f"Set 6631 {hx(c(FLOAT_TEXTS))} 0",
             lambda: f"SetBit {k} {c([0, 1, 7, 8, 9, 15, 63, 100, 4097 * 8, -1])} {c('01')}",
             lambda: f"GetBit {k} {c([0, 1, 7, 8, 9, 15, 63, 100, 40000, -1])}",
             lambda: f"BitCount {k} {self.idx()} {self.idx()} {c('01')}",
@@ -238,8 +248,9 @@ class G:
             lambda: f"HStrLen {k} {f()}",
             lambda: f"HDel {k} " + " ".join(f() for _ in range(r.randrange(1, 4))),
             lambda: f"HIncrBy {k} {f()} {c([1, -1, 5, 2**62, -2**63, 2**63 - 1])}",
-            lambda: f"HIncrByFloat {k} 666c {fbits(c([1, -1, 2, 10]))}",
-            lambda: f"HSet {k} 666c {hx(c([b'0', b'5', b'-3', b'12a', b'']))}",
+            lambda: f"HIncrByFloat {k} 666c {fbits(c(FLOAT_INCRS))}",
+            lambda: f"HIncrByFloat {k} 666c {fbits(c(FLOAT_INCRS))}",
+            lambda: f"HSet {k} 666c {hx(c(FLOAT_TEXTS))}",
             lambda: f"HScan {k} {c([0, 0, 1, 2, 5])} {c(['2a', self.pattern()])} {c([10, 1, 2, 0, 100])}",
             lambda: f"HClear {k}",
         ]
@@ -334,7 +345,7 @@ class G:
         c = r.choice
         n = r.randrange(1, 4)
         keys = [self.key("zset", 0.05) for _ in range(n)]
-        ws = [fbits(c([1, 2, 3, -1, 0.5])) for _ in range(c([0, 0, n, max(n - 1, 0)]))]
+        ws = [fbits(c([1, 2, 3, -1, 0.5, 0.1, 1e-3, 1.5, 3.0e3])) for _ in range(c([0, 0, n, max(n - 1, 0)]))]
         agg = c(["-", hx(b"SUM"), hx(b"MIN"), hx(b"MAX"), hx(b"sum")])
         kind = c(["ZUnion", "ZInter", "ZUnionStore", "ZInterStore"])
         body = f"[ {' '.join(keys)} ] [ {' '.join(ws)} ] {agg}"
